@@ -62,6 +62,13 @@ func Open(id string) bool {
 	return false
 }
 
+// Preload reads the list now (a test process that gives up its privileges afterwards may no longer be able to read
+// below the directory the checks were copied to) and returns all findings.
+func Preload() []Finding {
+	once.Do(load)
+	return all
+}
+
 // For returns the findings of one property.
 func For(property string) []Finding {
 	once.Do(load)
